@@ -135,9 +135,17 @@ Inductive pc :=
 
 Inductive branch := BrWatch | BrAsync | BrSignal | BrShutdownChan | BrCtx.
 
+(* graph.Host.NotifyComponentStatusChange: which component status events are forwarded to the
+   collector's asynchronous error channel — exactly those whose status is StatusFatalError (5),
+   whether or not the event carries an error value (NewEvent(StatusFatalError) and
+   NewFatalErrorEvent(nil) are fatal too: the status machine records FatalError, which is terminal).
+   Tie.v proves this equal to the table dumped by running the current code on every event a
+   component can build (Generated/C20Fatal.v). *)
+Definition forwards_async (status : Z) (has_err : bool) : bool := Z.eqb status 5.
+
 (* who is blocked sending on asyncErrorChannel: a plain sender (e.g. the telemetry factory, which
    is handed the channel itself), or a component of generation g that has not reported a fatal
-   error before (FatalError is terminal in the component's status machine: a repeated report is
+   error before, reporting an event with [forwards_async] = true (any error value, or none), (FatalError is terminal in the component's status machine: a repeated report is
    refused and sends nothing) reporting StatusFatalError — the latter sends from inside
    reporter.ReportStatus, i.e. while holding the mutex of generation g's status reporter.  A
    second fatal reporter of the same service really waits for that mutex rather than in the
